@@ -148,6 +148,15 @@ func TestVerifC10Cancel(t *testing.T) {
 		if cn.Mode == "after" {
 			cn.DelayPct = rapid.SampledFrom([]int{0, 10, 25, 40, 50, 90, 150, 300}).Draw(rt, "cancelDelayPct")
 		}
+		// how the request ends there: cancelled, or because its own deadline expires
+		cn.End = rapid.SampledFrom([]string{"cancel", "cancel", "deadline", "deadline", "realdeadline"}).Draw(rt, "endKind")
+		if cn.End == "realdeadline" {
+			if cn.Mode == "after" {
+				cn.End = "deadline" // a real deadline cannot be placed relative to an attempt's end
+			} else {
+				cn.RealTimeoutMs = rapid.IntRange(1, 10).Draw(rt, "realTimeoutMs")
+			}
+		}
 		plan.Cancel = cn
 		// a blocking backend is only played where the attempt's context is certain to end
 		plan.Script = vfC10GenScript(rt, ps, func(i int) bool {
@@ -170,7 +179,7 @@ func TestVerifC10Cancel(t *testing.T) {
 			vfC10Inconclusive(rt, "Proxy.Handle", ps, plan, res)
 		}
 		vfC10Classes(vf, ps, plan, res)
-		vf.Class("cancel-mode=" + cn.Mode)
+		vf.Class("cancel-mode="+cn.Mode, "request-ends-by="+cn.End)
 		// did the cancellation land where the statement forbids a further attempt although the
 		// policy would otherwise have made one?
 		hit := false
@@ -183,6 +192,9 @@ func TestVerifC10Cancel(t *testing.T) {
 						vf.Class("cancel-hit-during-attempt-with-retry-due")
 					} else {
 						vf.Class("cancel-hit-inside-guaranteed-backoff")
+					}
+					if cn.byDeadline() {
+						vf.Class("deadline-hit-with-retry-due (" + cn.End + ")")
 					}
 					break
 				}
@@ -201,7 +213,7 @@ func TestVerifC10Cancel(t *testing.T) {
 		})
 		vfC10Judge(vf, ps, plan, res, func(key, format string, args ...interface{}) bool {
 			extra := ""
-			if key == vfC10KeyAfterCancel {
+			if key == vfC10KeyAfterCancel || key == vfC10KeyAfterDeadline {
 				// The retry loop picks at random between "back-off elapsed" and "cancelled" when both
 				// are ready, and does not look at the context again (vfC10KeyCancelRace). With a wait of
 				// milliseconds that needs a scheduling stall between arming the timer and selecting on
